@@ -356,6 +356,9 @@ def gen_cases(rng, tier):
         r = rng.random()
         if r < 0.25:      # dense small graphs: supports with 1 < |S| < n (hidden-edge branch) and |S| >= n (all-vertices branch)
             n = rng.randint(4, 8); g0 = gen.random_graph(rng, n, rng.choice([0.6, 0.8, 1.0]))
+        elif r < 0.40:    # small dense graphs with distinct-ish weights in a random edge order (the hidden-edge bookkeeping matters there)
+            import exact_common
+            graphs.append((exact_common.dense_small(rng), "dense-small")); continue
         else:
             g0 = gen.structural(rng, maxn if rng.random() < 0.9 else maxn + 8)
         g, style = gen.weigh(rng, g0)
